@@ -14,7 +14,7 @@ RULE = ('intervals = all ordered endpoint pairs from a finite endpoint set (D(3,
         'points +-m*2^-j as point intervals) x interval precisions {1..5,24,53}; for every operation the result interval must '
         'contain f(w) for every witness point w of the inputs (endpoints, midpoint, 0, interior dyadics, critical points; products '
         'of witness sets for binary operators).  Oracle: exact rationals for + - * / **int abs neg; independent ball arithmetic for '
-        'exp log sqrt sin cos tan atan **real (escalated until containment is decided); gamma family: mpmath at 4p+200 bits with a '
+        'exp log sqrt sin cos tan atan **real (escalated until containment is decided); gamma family (incl. 77 x 4 intervals around the extremum x0 = 1.4616... with endpoints x0 - 2^-j, x0 + 2^-k at 24..160 bits): mpmath at 4p+200 bits with a '
         '2^-(3p) margin (assume-guarantee on C18).  Conversions of int/float/mpf/Fraction/strings must contain the denoted value. '
         'non-trivial = finite witness with finite image; duplicate-free by construction')
 ASSUMPTIONS = ['refball error bounds', 'gamma-family reference uses the implementation at >= 4p+200 bits (C18) with margin']
@@ -181,7 +181,61 @@ def tasks(tier, seed):
             out.append(('binary', p, c, 2, th))
         out.append(('pow', p, th))
         out.append(('conv', p, th))
+    for p in (24, 53, 80, 100, 160) + ((250,) if th else ()):
+        out.append(('gammamin', p))
     return out
+
+
+def t_gammamin(task):
+    """intervals around the minimum x0 = 1.46163... of gamma on the positive axis (maximum of rgamma, minimum of loggamma; x0 - 1 for factorial):
+    every combination of lower endpoints x0 - 2^-j and upper endpoints x0 + 2^-k must contain the extremal value"""
+    _, p = task
+    import mpmath.libmp as L
+    from mpmath import mp, mpf
+    acc = Acc()
+    try:
+        mp.prec = 700
+        x0 = mp.findroot(mp.digamma, mpf('1.4616321449683623'))
+        X0 = Fraction(int(mp.floor(mp.ldexp(x0, 260))), 1 << 260)            # dyadic within 2^-260 of x0
+        fns = (('gamma', L.mpi_gamma, mp.gamma, 0), ('rgamma', L.mpi_rgamma, mp.rgamma, 0), ('loggamma', L.mpi_loggamma, mp.loggamma, 0), ('factorial', L.mpi_factorial, mp.factorial, -1))
+        hp = 4 * p + 300
+        def raw(fr):
+            n, d = fr.numerator, fr.denominator
+            return mk(1 if n < 0 else 0, abs(n), -(d.bit_length() - 1))
+        for j in (8, 20, 30, 36, 38, 39, 40, 45, 60, 100, 200):
+            for k in (8, 30, 40, 60, 100, 200, None):
+                for name, f, g, shift in fns:
+                    a = X0 - Fraction(1, 1 << j) + shift
+                    b = (X0 + Fraction(1, 1 << k) + shift) if k is not None else X0 + shift
+                    I = (raw(a), raw(b))
+                    try:
+                        r = core.with_timeout(20, f, I, p)
+                    except core.TimeoutHit:
+                        acc.count('timeouts'); continue
+                    except Exception:
+                        acc.count('raised'); continue
+                    for w in (a, b, X0 + shift, (a + b) / 2):
+                        mp.prec = hp
+                        try:
+                            v = g(mpf(w.numerator) / w.denominator)
+                            margin = abs(v) * mpf(2) ** (-3 * p) + mpf(2) ** (-hp + 10)
+                            lo, hi = v - margin, v + margin
+                            A = mp.make_mpf(r[0]); B = mp.make_mpf(r[1])
+                            ok_in = (A <= lo) and (hi <= B)
+                            sure_out = (hi < A) or (lo > B)
+                        finally:
+                            mp.prec = 53
+                        acc.evals += 1
+                        if not ok_in and not sure_out:
+                            acc.undecided += 1; continue
+                        acc.nontrivial += 1
+                        if sure_out:
+                            acc.violation(['gmin', name, j, k, p, str(w)[:40]], 'mpi_%s([x0-2^-%d, x0%s], prec=%d) does not contain %s at a point of the interval (x0 = position of the extremum)' %
+                                          (name, j, '+2^-%d' % k if k else '', p, name), fn=name, kind='gamma', region='extremum')
+        acc.sample(['mpi_gamma', 'x0-2^-38', 'x0+2^-60', p])
+    finally:
+        mp.prec = 53
+    return acc
 
 
 def in_domain(name, w):
@@ -458,6 +512,9 @@ def t_conv(task):
             chk(['a+-b%', a_, b_], iv.mpf('%s +- %s%%' % (a_, b_)), A - abs(A) * B / 100, A + abs(A) * B / 100)
         chk(['x[y,z]e', '1.2[3,7]e2'], iv.mpf('1.2[3,7]e2'), Fraction(123), Fraction(127))
         chk(['x[y,z]', '0.33[1,9]'], iv.mpf('0.33[1,9]'), Fraction(331, 1000), Fraction(339, 1000))
+        chk(['x[y,z]', '-1.2[3,4]'], iv.mpf('-1.2[3,4]'), Fraction(-124, 100), Fraction(-123, 100))
+        chk(['x[y,z]e', '-0.33[1,9]e-3'], iv.mpf('-0.33[1,9]e-3'), Fraction(-339, 10 ** 6), Fraction(-331, 10 ** 6))
+        chk(['x[y,z]', '-7[0,5]'], iv.mpf('-7[0,5]'), Fraction(-75), Fraction(-70))
         acc.sample(['iv.mpf', '0.5' + '0' * 30 + '1', p])
     finally:
         iv.prec = 53; mp.prec = 53
